@@ -4,6 +4,7 @@
 
 #include <array>
 #include <chrono>
+#include <deque>
 #include <cstdio>
 #include <fstream>
 #include <iterator>
@@ -433,6 +434,27 @@ static void forms_for_length()
                                     [&] { check_unchanged<S>(s, "vector iterator"); });
                 cell<T, S, Varying>("std::vector::const_iterator", N, [&](auto& v) { emp(v, s.cbegin()); }, POST_UNCHANGED,
                                     [&] { check_unchanged<S>(s, "vector const_iterator"); });
+            }
+            if constexpr (S_COPY && N >= 2)
+            {
+                // a deque whose first item sits in the last slot of one block and the rest in the next block: a random
+                // access iterator with operator-> that is NOT contiguous
+                auto tmp = make_vec<S>(N + 1);
+                std::deque<S> s;
+                for (int i = 1; i <= N; ++i) s.push_back(tmp[static_cast<std::size_t>(i)]);
+                s.push_front(tmp[0]);
+                cell<T, S, Varying>("std::deque::iterator across blocks", N, [&](auto& v) { emp(v, s.begin()); }, POST_UNCHANGED,
+                                    [&] { check_unchanged<S>(s, "deque iterator"); });
+                cell<T, S, Varying>("std::deque& across blocks", N,
+                                    [&](auto& v)
+                                    {
+                                        std::deque<S> exact(s.begin(), s.begin() + N);
+                                        exact.clear();
+                                        for (int i = 1; i < N; ++i) exact.push_back(tmp[static_cast<std::size_t>(i)]);
+                                        exact.push_front(tmp[0]);
+                                        emp(v, exact);
+                                    },
+                                    POST_NONE, [] {});
             }
             if constexpr (S_COPY)
             {
